@@ -173,6 +173,10 @@ func (fv *FV) execBlock(st *State, b *ssa.BasicBlock, pred *ssa.BasicBlock) {
 			st.fr.vals[phi] = v
 			if phi.Comment != "" {
 				st.fr.names[phi.Comment] = v
+				if isHeader {
+					// nested loops: <name>$<loop ordinal> names this loop's own variable
+					st.fr.names[fmt.Sprintf("%s$%d", phi.Comment, li.idx)] = v
+				}
 			}
 		}
 	}
@@ -233,6 +237,15 @@ func (fv *FV) execBlock(st *State, b *ssa.BasicBlock, pred *ssa.BasicBlock) {
 		}
 		na := fv.fresh("alloc", "Int")
 		st.assume(fmt.Sprintf("(>= %s %s)", na, st.alloc))
+		// a function that does not declare "allocates T" creates no object of the tracked type T,
+		// in a loop or elsewhere (each allocation site has its own obligation)
+		if tr := fv.trackedTypes(); len(tr) > 0 {
+			for n, id := range tr {
+				if !fv.fc.Allocates[n] {
+					st.assume(fmt.Sprintf("(forall ((r Int)) (! (=> (and (> r alloc!entry) (<= r %s)) (not (= (rtype r) %d))) :pattern ((rtype r))))", na, id))
+				}
+			}
+		}
 		st.alloc = na
 		for _, in := range b.Instrs {
 			phi, ok := in.(*ssa.Phi)
@@ -244,6 +257,7 @@ func (fv *FV) execBlock(st *State, b *ssa.BasicBlock, pred *ssa.BasicBlock) {
 			st.fr.vals[phi] = nv
 			if phi.Comment != "" {
 				st.fr.names[phi.Comment] = nv
+				st.fr.names[fmt.Sprintf("%s$%d", phi.Comment, li.idx)] = nv
 			}
 			fv.assumeWF(st, nv)
 		}
